@@ -16,13 +16,13 @@ ASSUMPTIONS = ['SHA-256 compression is an uninterpreted function when its input 
                'allocation never fails; logging discarded', 'control block length is 33+32m (other lengths are refused before this code: decided by C03)']
 OUTSIDE = ['path lengths above the tier bound (the fold is uniform in the index)', 'elliptic-curve arithmetic of the tweak check']
 BOUNDS = {'quick': 'path length m = 0..3; script lengths {0,3,28,29,127,128,252,253}; every byte of control block (incl. leaf version and parity), program and script symbolic',
-          'thorough': 'path length m = 0..6; script lengths {0,1,3,28,29,55,56,64,252,253}'}
+          'thorough': 'path length m = 0..4 (m = 5 and 6 exceed 1800 s per obligation); script lengths {0,1,3,28,29,55,56,64,75,76,127,128,252..256,520}'}
 
 def setup(E): stubs.install_all(E)
 
 def obligations(tier, seed):
     obs = []
-    ms = range(0, 4) if tier == 'quick' else range(0, 7)
+    ms = range(0, 4) if tier == 'quick' else range(0, 5)          # m = 5, 6 exceed the 1800 s obligation limit (2^m sort orders over nested hash terms)
     sl = (0, 3, 28, 29, 127, 128, 252, 253) if tier == 'quick' else (0, 1, 3, 28, 29, 55, 56, 64, 75, 76, 127, 128, 252, 253, 254, 255, 256, 520)
     for m in ms:
         for s in (sl if m <= 1 else (3,)):
